@@ -223,6 +223,26 @@ func randDriver(n int, outPath, repo string) {
 			}
 		}
 	}
+	// 2b. values of more than 32 KiB displayed in full (display_bytes 0): the dump copies the value through the hex and the character
+	// column writers in chunks of 32 KiB, so a chunk boundary falls inside the listing - on a line end for some starts and widths, in
+	// the middle of a line for others
+	for i, l := range []int{16, 16, 12, 7, 16, 1 + rng.Intn(40)} {
+		sz := int64(36000 + rng.Intn(9000))
+		a := int64(0)
+		switch i % 3 {
+		case 1:
+			a = int64(l) * int64(1+rng.Intn(20)) * 8 // starts on a line start: the 32 KiB point is a line end when l divides 32768
+		case 2:
+			a = int64(rng.Intn(400)) * 8
+		}
+		if i == 4 {
+			a = 512 * 8
+		}
+		j := &job{Kind: "bin", Cmd: "hd", A: a, B: sz * 8, buf: randBuf(rng, sz*8), bufBits: sz * 8}
+		j.setOpts(l, []int{16, 10, 8}[i%3], 16, 0, true, false, false, 0)
+		j.what = fmt.Sprintf("%d-byte buffer | tobits[%d:%d] | hd(%v) in full", sz, a, sz*8, j.Opts)
+		add(j)
+	}
 	// 3. decoder programs with nested buffers
 	for i := 0; i < n/3; i++ {
 		var toks []treelib.Tok
